@@ -1,5 +1,7 @@
 (* C02 -- outbound stream integrity and ordering.  Statements only; proofs in Proofs/LoopData.v and Proofs/LoopProgress.v. *)
 From GV Require Import Lib.Trace Model.Loop Spec.LoopSpec Proofs.LoopData Proofs.LoopProgress.
+From GV Require Import Model.Elastic Spec.ElasticSpec Proofs.LoopBufferLink.
+From GV Require Model.Ring Model.LList.
 Open Scope Z_scope.
 
 (* For every input stream: the bytes the kernel accepts from a connection are always the
@@ -20,3 +22,56 @@ Print Assumptions C02_outbound_integrity.
 Theorem C02_outbound_progress : forall i t, run_history i = Some t -> out_progress_ok (is_et i) t = true.
 Proof. exact out_progress_holds. Qed.
 Print Assumptions C02_outbound_progress.
+
+(* What licenses the FIFO list [c_out] of Model/Loop.v.  In gnet the outboundBuffer is an
+   elastic.Buffer (ring + linked list); Model/Loop.v holds it as a plain byte list and works on
+   it with ++, List.concat, zdrop, zlen, firstn iov_max and `match .. with [] => ..`.  For every
+   method the Go code calls on it (Write, Writev in conn.write / writev / open; Peek(-1) /
+   Peek(0) and Discard(n) in the flush loops of eventloop.write and eventloop.close;
+   IsEmpty, Buffered; ReadFrom; Reset, Release), executed on the buffer model of C10
+   (Model/Elastic.v over the models of C09 and C11): if the representation invariant holds and
+   the abstract content (bcontent = ring part ++ list part) is the list L the loop model holds,
+   then the method does not panic, returns what the loop model computes from L, keeps the
+   invariant and leaves the content the loop model stores.  [b] ranges over ALL states
+   satisfying the invariant (any split between ring and list), [c] is the capacity the pool
+   would hand back, the ReadFrom reader is any script with counts >= 0.  What Peek exposes --
+   also after iov[:iovMax] -- is a prefix [ztake off L] of L, which is what sys_wr of the loop
+   model offers to the kernel; it is all of L when len L <= MaxInt32.
+   Each clause is an instance of a per-method theorem of Properties/C10.v (Proofs/LoopBufferLink.v). *)
+Theorem C02_outbound_buffer_link :
+  (forall b L c p, binv b -> bcontent b = L -> 0 <= c -> Loop.zlen p <= 2^62 ->
+     exists b', BWrite b c p = Ret (b', (Loop.zlen p, XNil)) /\ binv b' /\ bcontent b' = (L ++ p)%list) /\
+  (forall b L c bs, binv b -> bcontent b = L -> 0 <= c -> Forall (fun x => Loop.zlen x <= 2^62) bs ->
+     exists b', BWritev b c bs = Ret (b', (Loop.zlen (List.concat bs), XNil)) /\ binv b' /\
+       bcontent b' = (L ++ List.concat bs)%list) /\
+  (forall b L n, binv b -> bcontent b = L ->
+     exists e segs, BPeek b n = Ret (e, segs) /\
+       (forall k : nat, exists off, 0 <= off <= Loop.zlen L /\ List.concat (firstn k segs) = Loop.ztake off L) /\
+       (exists off, 0 <= off <= Loop.zlen L /\ List.concat segs = Loop.ztake off L) /\
+       (n <= 0 -> e = XNil /\ List.concat segs = Loop.ztake LList.MaxInt32 L /\
+                  (Loop.zlen L <= LList.MaxInt32 -> List.concat segs = L)) /\
+       (0 < n <= Loop.zlen L -> n <> LList.MaxInt32 -> e = XNil /\ List.concat segs = Loop.ztake n L)) /\
+  (forall b L n, binv b -> bcontent b = L ->
+     exists b' e, BDiscard b n = Ret (b', (Z.max 0 (Z.min n (Loop.zlen L)), e)) /\ binv b' /\
+       bcontent b' = Loop.zdrop n L /\
+       (0 <= n <= Loop.zlen L -> Z.max 0 (Z.min n (Loop.zlen L)) = n) /\
+       (0 < n -> e = XNil)) /\
+  (forall b L pk n, binv b -> bcontent b = L -> pk <= 0 -> 0 <= n <= Loop.zlen L ->
+     exists segs b' e, BPeek b pk = Ret (XNil, segs) /\
+       (exists off, 0 <= off <= Loop.zlen L /\ List.concat (firstn Loop.iov_max segs) = Loop.ztake off L) /\
+       (Loop.zlen L <= LList.MaxInt32 -> List.concat segs = L) /\
+       (L <> [] -> segs <> []) /\
+       BDiscard b n = Ret (b', (n, e)) /\ binv b' /\ bcontent b' = Loop.zdrop n L) /\
+  (forall b L, binv b -> bcontent b = L ->
+     BBuffered b = Loop.zlen L /\
+     BIsEmpty b = match L with [] => true | _ :: _ => false end /\
+     (BIsEmpty b = true <-> L = [])) /\
+  (forall b L c src sc, binv b -> bcontent b = L -> 0 <= c -> script_ok sc ->
+     exists b' k e, BReadFrom b c src sc = Ret (b', (k, e, Loop.zlen src - k)) /\ binv b' /\
+       0 <= k <= Loop.zlen src /\ Loop.zlen (Loop.ztake k src) = k /\
+       bcontent b' = (L ++ Loop.ztake k src)%list) /\
+  (forall b m, binv b ->
+     binv (BReset b m) /\ bcontent (BReset b m) = [] /\ binv (BRelease b) /\ bcontent (BRelease b) = []) /\
+  (forall m, binv (mkB m None LList.empty_buffer) /\ bcontent (mkB m None LList.empty_buffer) = []).
+Proof. exact outbound_buffer_link. Qed.
+Print Assumptions C02_outbound_buffer_link.
